@@ -87,6 +87,8 @@ def main():
             text += " In addition, for every run in which nothing is left to scheduling choice, the full timed history is compared with the prediction of a small executable reference model (sim/refmodel.py); differences are reported under the property they belong to."
         if pid in ('C01', 'C02', 'C03', 'C12'):
             text += " One seed in four is an API history (constructor/requires/add/remove/bypass/keep_only/sanitize calls interleaved with read-only queries) followed by run(), one in ten a hand-designed motif (join under a full window, fan-out with mixed eligibility)."
+        if pid in ('C02', 'C04', 'C07', 'C08', 'C11', 'C12', 'C14'):
+            text += " One seed in twelve runs the same scheduler objects twice (trees without requirements), with jobs_window / timeout re-assigned, members removed and new jobs added in between, the first run sometimes in an event loop of its own; the second run is what is judged."
         checks.append({
             "property_id": pid,
             "quick_cmd": "./check {} --tier quick".format(pid),
@@ -118,7 +120,7 @@ def main():
         "engines": [
             {"name": A, "path": "sim/",
              "serves_properties": [p for p, c in CHECKS.items() if c[0] == A],
-             "kind_free_text": "deterministic simulation: the unmodified library and the real asyncio Task/Future/Queue/wait machinery run on a virtual-time event loop with a seeded scheduler (order of same-instant timers, stalls, set iteration order via seeded hashes) and injected faults (raising jobs, critical failures, timeouts, cancellation of nested runs at swept instants, slow cleanups and shutdown handlers); oracles over the recorded history, metamorphic twin runs, ddmin + replay files"},
+             "kind_free_text": "deterministic simulation: the unmodified library and the real asyncio Task/Future/Queue/wait machinery run on a virtual-time event loop with a seeded scheduler (order of same-instant timers, stalls, set iteration order via seeded hashes) and injected faults (raising jobs, critical failures, timeouts, cancellation of nested runs at swept instants, slow cleanups and shutdown handlers, jobs that raise or return from their cancellation handler or end with a CancelledError of their own, job / scheduler classes that define is_critical(), __bool__ or __len__ themselves); oracles over the recorded history, metamorphic twin runs, ddmin + replay files"},
             {"name": B, "path": "sim/h*.py",
              "serves_properties": [p for p, c in CHECKS.items() if c[0] == B],
              "kind_free_text": "seeded histories of graph/construction API calls executed against the library and a reference model, under seeded set iteration order; shrinking and replay"},
